@@ -69,6 +69,44 @@ def main(tier, seed):
                 if strip(obs[nme]) != strip(lref[1][nme]):
                     rep.violation("%s behaves differently on %s and %s: %s vs %s" % (nme, lref[0], bname, strip(lref[1][nme])[:300], strip(obs[nme])[:300]),
                                   {"program": nme})
+    # value-level operations with boundary operands, and programs whose correctness depends on WHEN the collector runs: the builds
+    # differ exactly in overflow checking, unchecked fast paths and collection schedule, so these are where they can diverge
+    from checks import c01, c02
+    ncases = []
+    for form in ("binop", "range", "iterate", "index", "fiberops"):
+        cs, n_ = c02.tlc_cases(rep, form, tier)
+        rep.coverage["states"] = rep.coverage.get("states", 0) + n_
+        ncases += [c for c in cs if c["r"]["c"] != "trigger"]
+    if tier == "quick":
+        rng.shuffle(ncases)
+        ncases = ncases[:15000]
+    save = c02.PROP
+    c02.PROP = PROP
+    try:
+        nn, _k = c02.run_natives(rep, bins, ncases)
+    finally:
+        c02.PROP = save
+    total += nn
+    pcases = []
+    for name, src in c01.PROBES.items():
+        c = {"id": "probe:" + name, "modules": c01.PROBE_MODULES, "gc": "default"}
+        if isinstance(src, list):
+            c["snippets"] = [{"src": x} for x in src]
+        else:
+            c["main"] = src
+        pcases.append(c)
+    pref = None
+    for bname, binary in bins:
+        obs = {}
+        for c, r in zip(pcases, Pool(binary, "run", timeout=120).map(pcases)):
+            total += 1
+            obs[c["id"]] = vlib.norm_addr(json.dumps([vlib.run_output_lines(x) for x in r["runs"]])) if "runs" in r else "crash: " + json.dumps({k: r[k] for k in r if k != "events"})[:300]
+        if pref is None:
+            pref = (bname, obs)
+        else:
+            for nme in obs:
+                if obs[nme] != pref[1][nme]:
+                    rep.violation("%s behaves differently on %s and %s: %s vs %s" % (nme, pref[0], bname, pref[1][nme][:300], obs[nme][:300]), {"program": nme})
     # the repository's scripts: identical observable behaviour on every build (and the documented output)
     items, modules = vlib.corpus()
     cases = [{"id": nme, "main": src, "modules": modules, "gc": "default"} for nme, src, exp in items]
